@@ -220,7 +220,8 @@ def main(argv=None) -> int:
     found = {}  # signature -> (case, violation)
     n_viol_cases = 0
     sample_stride = max(1, len(cases) // 4)
-    for idx, (case, res) in enumerate(fan_out(modname, cases, nproc=args.nproc)):
+    for idx, (case, res) in enumerate(fan_out(modname, cases, nproc=args.nproc,
+                                              chunk=getattr(mod, "FANOUT_CHUNK", None))):
         n_eval += 1
         st = res["status"]
         if st == "error":
